@@ -2040,9 +2040,11 @@ class Builder:
                     # If the request was sequential, each pair has already been
                     # measured and does not need to be freed.
                     # Otherwise: free the qubits.
+                    # NOTE: the handles stay valid (the loop generates the pairs
+                    # again), so only the instructions are added here.
                     if not params.sequential:
                         for q in qubits:
-                            q.free()
+                            self._build_cmds_qfree(qubit_id=q.qubit_id)
 
                 loop.set_cleanup_code(cleanup)
 
@@ -2080,9 +2082,11 @@ class Builder:
                     # If the request was sequential, each pair has already been
                     # measured and does not need to be freed.
                     # Otherwise: free the qubits.
+                    # NOTE: the handles stay valid (the loop generates the pairs
+                    # again), so only the instructions are added here.
                     if not params.sequential:
                         for q in qubits:
-                            q.free()
+                            self._build_cmds_qfree(qubit_id=q.qubit_id)
 
                 loop.set_cleanup_code(cleanup)
 
